@@ -41,7 +41,7 @@ ANCHORS = ['pfhedge.nn.functional:european_payoff',
 PYTEST_WORKLOAD = True  # thorough tier also runs /repo/tests with these passive monitors attached (DESIGN.md 2.7)
 DECIDING = ["payoff.european", "payoff.lookback", "payoff.american_binary", "payoff.european_binary",
             "payoff.forward_start", "payoff.realized_variance", "derivative.payoff_fn", "clauses.order", "clauses.registry", "relations"]
-REQUIRED_BRANCHES = ["clauses.same_callable_registered_twice", "payoff_after_resimulation", "tie_with_unrepresentable_strike", "tie_with_strike", "call", "put", "T=1", "T=2"]
+REQUIRED_BRANCHES = ["forward_start.end_before_last_step", "clauses.same_callable_registered_twice", "payoff_after_resimulation", "tie_with_unrepresentable_strike", "tie_with_strike", "call", "put", "T=1", "T=2"]
 
 _CTX = None
 MAXR = 12
@@ -385,6 +385,10 @@ def drv_functional(ctx, k, rng):
     T = x.shape[-1]
     si = int(rng.integers(0, T))
     F.european_forward_start_payoff(x, strike=strike, start_index=si)
+    ei = int(rng.integers(-T, T))  # the option may also end before the last step (judged by the passive oracle with this end index)
+    F.european_forward_start_payoff(x, strike=strike, start_index=si, end_index=ei)
+    if ei not in (-1, T - 1):
+        ctx.branch("forward_start.end_before_last_step")
     if T >= 2:
         dt = float(pick(rng, [1 / 250, 1 / 12, 0.1]))
         F.realized_variance(x, dt)
